@@ -2,6 +2,7 @@ package checks
 
 import (
 	"fmt"
+	"sort"
 	"strings"
 
 	"verif/core"
@@ -46,12 +47,31 @@ func genLayoutTree(c *core.Ctx, cfgIdx int) layoutCase {
 		if strings.HasPrefix(layoutName, "layouts/") && r.Intn(2) == 0 {
 			spelling = "~" + strings.TrimPrefix(layoutName, "layouts/")
 		}
+		if r.Intn(4) == 0 {
+			// spellings of the layout's path that name the same file
+			spelling = []string{"./" + layoutName, strings.Replace(layoutName, "/", "//", 1), strings.Replace(layoutName, "/", "/./", 1)}[r.Intn(3)]
+		}
 		var useStmt model.Stmt = model.Use{Name: spelling}
 		if r.Intn(5) == 0 {
 			// the pinned test data writes @use and one-line inserts inside @if(true) as well
 			useStmt = model.If{Conds: []model.Expr{model.Lit{V: model.Bool(true)}}, Bodies: [][]model.Stmt{{model.Use{Name: spelling}}}}
 		}
 		stmts := []model.Stmt{model.Text{S: "junk before "}, useStmt, model.Text{S: "\n junk after use\n"}}
+		if r.Intn(3) == 0 {
+			// statements of the page outside its inserts are no part of the result: not their text, and not what they assign
+			// (names of the data, of the layout's accumulator and of their own, with values of any type)
+			var junk []model.Stmt
+			var names []string
+			for name := range g.data {
+				names = append(names, name)
+			}
+			sort.Strings(names)
+			for k := 0; k < 2 && len(names) > 0; k++ {
+				junk = append(junk, model.Assign{Name: names[r.Intn(len(names))], E: model.StrLit{S: "assigned by the page"}})
+			}
+			junk = append(junk, model.Assign{Name: "acc", E: model.Lit{V: model.Int(1000)}}, model.Assign{Name: "fresh", E: model.Lit{V: model.Float(1.5)}}, model.Print{E: model.Lit{V: model.Int(7)}})
+			stmts = append(junk, stmts...)
+		}
 		for _, rn := range reserves {
 			if r.Intn(4) == 0 {
 				continue // this reserve stays empty
